@@ -39,6 +39,10 @@ type wireBody struct {
 	// Connect bodies from peers that do not stream them), otherwise the length
 	// is unknown to the receiver (-1), as with the library's own peers.
 	KnownLength bool `json:"known_length,omitempty"`
+	// Want: the messages the sending application put into this body, as the
+	// receiver must observe them (nil: not recorded; the C04 prefix clause then
+	// compares with the uncut delivery).
+	Want [][]byte `json:"want,omitempty"`
 }
 
 func (w wireBody) key() string {
@@ -161,11 +165,24 @@ func captureCorpus(thorough bool) []wireBody {
 				if ex == nil {
 					continue
 				}
+				var wantResp, wantReq [][]byte
+				for i, sz := range sc.respSizes {
+					wantResp = append(wantResp, MsgBytes(MkMsg(c03Payload(sz, byte(0x41+i)))))
+				}
+				for i, r := range reqs {
+					if i > 0 && !sc.kind.ClientStreams() {
+						break
+					}
+					wantReq = append(wantReq, MsgBytes(MkMsg(r)))
+				}
+				if js {
+					wantResp, wantReq = nil, nil // JSON cannot carry everything MsgBytes observes: compare with the uncut delivery
+				}
 				if sc.kind != KClient {
-					out = append(out, wireBody{Name: sc.name, Proto: p, Kind: sc.kind, JSON: js, Status: ex.Status, Header: ex.RespHeader.Clone(), Body: cloneBytes(ex.RespBody), Trailer: ex.RespTrail.Clone()})
+					out = append(out, wireBody{Name: sc.name, Proto: p, Kind: sc.kind, JSON: js, Status: ex.Status, Header: ex.RespHeader.Clone(), Body: cloneBytes(ex.RespBody), Trailer: ex.RespTrail.Clone(), Want: wantResp})
 				}
 				if sc.kind == KClient || sc.name == "one" || sc.name == "gzip" || sc.name == "unary-gzip" {
-					out = append(out, wireBody{Name: sc.name, Proto: p, Kind: sc.kind, JSON: js, Request: true, Header: ex.ReqHeader.Clone(), Body: cloneBytes(ex.ReqBody)})
+					out = append(out, wireBody{Name: sc.name, Proto: p, Kind: sc.kind, JSON: js, Request: true, Header: ex.ReqHeader.Clone(), Body: cloneBytes(ex.ReqBody), Want: wantReq})
 				}
 			}
 		}
